@@ -190,18 +190,20 @@ def search(ctx):
                                   input={'base': base, 'step': st_run, 'assignment': list(bits)})
                     break
         # block extraction gives back the attached circuit's function
-        if name != '' and len(set(thisc)) == len(thisc):
+        # (right direction: only when no gate of the attached circuit feeds two base inputs — the
+        # documented composition identifies connector pairs one to one)
+        if name != '' and len(set(thisc)) == len(thisc) and (not right or len(set(otherc)) == len(otherc)):
             try:
                 c = circ_from_json(r)
                 ex = circ_to_json(c.get_block(name).into_circuit())
                 if len(other['inputs']) <= 5:
                     t1 = py_exec({'op': 'truth_table', 'c': other})
                     t2 = py_exec({'op': 'truth_table', 'c': ex})
-                    if 'ok' in t1 and t1 != t2 and not right:
+                    if 'ok' in t1 and t1 != t2:
                         ctx.violation('connect.block_extraction', f'extracted block computes {t2}, attached circuit {t1}',
                                       input={'base': base, 'step': st_run})
             except Exception as e:  # noqa: BLE001
-                if not right:
+                if True:
                     ctx.violation('connect.block_extraction_raises', f'Block.into_circuit raised {err_name(e)}', input={'base': base, 'step': st_run})
     for (base, st), verdict in zip(wf_origin, check_wf(ctx, wf_states)):
         if verdict != 'ok':
